@@ -428,17 +428,18 @@ Definition dec_nat4 (z : Z) : option nat :=
 Definition dec_mode (z : Z) : option nat := match z with 4 => None | _ => dec_nat4 z end.
 
 (* op 3: converter behaviour [ckind cdatum] or [ckind cdatum spec]; spec selects the future_conv specialisation
-   (0 member function, 1 free function, 2 free function with context, 3 member function that is handed the promise;
-   a void source has only 0 and 3).  All specialisations have the same hook points and the same effect
+   (0 member function, 1 free function, 2 free function with context, 3 member function that is handed the promise,
+   4 member function returning a REFERENCE (outer future<To&>: it must refer to the very object the converter returned;
+   the harness compares addresses); a void source has only 0 and 3).  All specialisations have the same hook points and the same effect
    (future_conv.h:56-159), so the model does not distinguish them. *)
 Definition dec_conv (isvoid : bool) (ops : list (list Z)) : option (nat * Z) :=
   match find_op 3 ops with
   | None => Some (0%nat, 0)
   | Some [ck; cd] => match dec_bool ck with Some b => Some (if b then 1%nat else 0%nat, cd) | None => None end
   | Some [ck; cd; sp] =>
-      match dec_nat4 ck, dec_mode sp with
+      match dec_nat4 ck, dec_nat4 sp with
       | Some b, Some n =>
-          if isvoid && (Nat.eqb n 1 || Nat.eqb n 2) then None
+          if isvoid && (Nat.eqb n 1 || Nat.eqb n 2 || Nat.eqb n 4) then None
           else if Nat.leb 2 b && negb (Nat.eqb n 3) then None     (* only a converter that is handed the promise can do 2-4 *)
           else Some (b, cd)
       | _, _ => None
@@ -558,7 +559,9 @@ Definition list_eqb (a b : list Z) : bool :=
 
 Definition headz (l : list Z) : Z := match l with x :: _ => x | [] => -100 end.
 Definition is_event_line (l : list Z) : bool :=
-  let h := headz l in Z.eqb h 30 || Z.eqb h 31 || Z.eqb h 34 || Z.eqb h 35 || Z.eqb h 32 || Z.eqb h 33 || Z.eqb h 36.
+  let h := headz l in Z.eqb h 30 || Z.eqb h 31 || Z.eqb h 34 || Z.eqb h 35 || Z.eqb h 32 || Z.eqb h 33 || Z.eqb h 36 || Z.eqb h 37.
+(* 36: the counting storage was asked for a block while one was live; 37: the awaitable's factory was used after the caller's
+   statement had destroyed it - lines the model never produces, so the oracle rejects them *)
 Definition is_final_line (l : list Z) : bool :=
   let h := headz l in Z.eqb h 40 || Z.eqb h 43 || Z.eqb h 42 || Z.eqb h 44 || Z.eqb h 50 || Z.eqb h 41.
 (* drop the step number (position 1) of an event line *)
